@@ -441,6 +441,12 @@ func (c *FCGIClient) Request(p map[string]string, req io.Reader) (resp *http.Res
 		if err != nil {
 			return
 		}
+		if resp.StatusCode < 100 || resp.StatusCode > 999 {
+			// not a status code that can be written to the client
+			// (net/http panics on it)
+			err = errors.New("fastcgi: invalid status code " + strconv.Quote(statusParts[0]) + " in response")
+			return
+		}
 		if len(statusParts) > 1 {
 			resp.Status = statusParts[1]
 		}
